@@ -17,6 +17,7 @@ process(), 2 unary result at the client, 3 stream output at the client), the cli
 from __future__ import annotations
 
 import contextlib
+import hashlib
 import struct
 import threading
 from dataclasses import dataclass
@@ -84,15 +85,32 @@ def make_batch(shape: str, n: int, tag: int) -> pa.RecordBatch:
         arr = pa.ListArray.from_arrays(pa.array(list(range(0, 2 * n + 1, 2)), type=pa.int32()), values)
         return pa.RecordBatch.from_arrays([arr], schema=sch)
     if shape == "zero":
-        return pa.RecordBatch.from_pylist([{}] * n, schema=sch) if n else pa.RecordBatch.from_pydict({}, schema=sch)
+        return pa.RecordBatch.from_struct_array(pa.array([{}] * n, type=pa.struct([])))
     if shape == "wide":
         return pa.RecordBatch.from_arrays([pa.array([t] * n, type=pa.int8()) for _ in range(_WIDE)], schema=sch)
     raise ValueError(shape)
 
 
 def content_key(batch: pa.RecordBatch) -> str:
-    """Everything of a batch an application can see (schema incl. types, every value), as a string."""
-    return f"{batch.schema.to_string(show_field_metadata=True, show_schema_metadata=True)}|{batch.num_rows}|{batch.to_pylist() if batch.num_columns else None}"
+    """Everything of a batch an application can see (schema incl. types, row count, every value), condensed."""
+    cols = [batch.column(i).to_pylist() for i in range(batch.num_columns)]
+    digest = hashlib.sha1(repr(cols).encode()).hexdigest()[:20]
+    head = [c[:2] for c in cols[:2]]
+    return f"{batch.schema.to_string(show_field_metadata=True, show_schema_metadata=True)[:200]}|{batch.num_rows}|{head}|{digest}"
+
+
+def raw_digest(batch: pa.RecordBatch) -> str:
+    """Digest of the memory a batch views (cheap; detects any change under a batch that is still held)."""
+    h = hashlib.sha1()
+    for col in batch.columns:
+        for buf in col.buffers():
+            if buf is not None:
+                h.update(memoryview(buf))
+        if pa.types.is_dictionary(col.type):
+            for buf in col.dictionary.buffers():
+                if buf is not None:
+                    h.update(memoryview(buf))
+    return h.hexdigest()
 
 
 def has_top_level_dictionary(schema: pa.Schema) -> bool:
@@ -187,7 +205,7 @@ class C29Svc(Protocol):
 class C29Impl:
     def un(self, pid: int, pad: bytes, ctx: CallContext) -> bytes:
         prog = PROGRAMS[pid]
-        SERVER_OBS.append([0, f"req|{pid}|{len(pad)}|{pad[:1]!r}|{pad == pad[:1] * len(pad)}"])
+        SERVER_OBS.append([0, req_key(len(pad), pad == bytes([REQ_FILL]) * len(pad))])
         if prog.get("exclog"):
             ctx.client_log(Level.EXCEPTION, "exclog-unary")
         if prog.get("raise"):
@@ -201,6 +219,13 @@ class C29Impl:
     def ex(self, pid: int) -> Stream[C29Exch]:
         prog = PROGRAMS[pid]
         return Stream(output_schema=SCHEMAS[prog["out"]], state=C29Exch(pid=pid), input_schema=SCHEMAS[prog["in"]])
+
+
+REQ_FILL = 7
+
+
+def req_key(n: int, intact: bool = True) -> str:
+    return f"req|{n}|{intact}"
 
 
 _SERVER: list[RpcServer] = []
@@ -253,11 +278,15 @@ def _via_shm(ab: AnnotatedBatch) -> bool:
 # ---------------------------------------------------------------------------
 # running a history
 # ---------------------------------------------------------------------------
+_PID = 1
+
+
 @dataclass
 class Held:
     ab: AnnotatedBatch
     key: str
     via_shm: bool
+    digest: str = ""
 
 
 def _raw_unary(ct: Any, seg: Any, pid: int, pad: bytes) -> Any:
@@ -307,7 +336,9 @@ def run_history(history: list[Any], *, use_shm: bool, seg_size: int = 1 << 20, t
     th = threading.Thread(target=serve, daemon=True, name="c29-serve")
     th.start()
     held: list[Held] = []
-    base_pid = (id(res) % 1000003) * 64
+    global _PID
+    base_pid = _PID
+    _PID += len(history) + 1
 
     def body() -> None:
         with RpcConnection(C29Svc, ct) as px:
@@ -321,7 +352,7 @@ def run_history(history: list[Any], *, use_shm: bool, seg_size: int = 1 << 20, t
                     if kind == "unary":
                         PROGRAMS[pid] = arg
                         if arg.get("req") is not None:
-                            pad = bytes([pid % 251]) * int(arg["req"])
+                            pad = bytes([REQ_FILL]) * int(arg["req"])
                             v = _raw_unary(ct, seg, pid, pad)
                         else:
                             v = px.un(pid=pid, pad=b"")
@@ -347,11 +378,11 @@ def run_history(history: list[Any], *, use_shm: bool, seg_size: int = 1 << 20, t
                                 key = content_key(ab.batch)
                                 trace.append(["batch", key, _app_meta(ab.custom_metadata)])
                                 deliv.append([3, key])
-                                h = Held(ab, key, _via_shm(ab))
                                 if t.get("rel"):
                                     ab.release()
-                                else:
-                                    held.insert(0, h)
+                                elif _via_shm(ab):
+                                    # release() of a batch that arrived inline is a no-op: only shm batches are "held"
+                                    held.insert(0, Held(ab, key, True, raw_digest(ab.batch)))
                         finally:
                             if arg.get("after") == "cancel":
                                 sess.cancel()
@@ -366,12 +397,12 @@ def run_history(history: list[Any], *, use_shm: bool, seg_size: int = 1 << 20, t
                     trace.append(["error", e.error_type, str(e.error_message)[:120]])
                 # batches still held must still read as they did on arrival
                 for h in held:
-                    if content_key(h.ab.batch) != h.key:
+                    if raw_digest(h.ab.batch) != h.digest:
                         res["stale"].append([ci, h.key[:80]])
                 srv = [list(x) for x in SERVER_OBS]
                 res["calls"].append(
                     {
-                        "deliveries": sorted(srv, key=lambda x: 0) + deliv if kind != "stream" else _interleave(srv, deliv),
+                        "deliveries": _interleave(srv, deliv) if kind == "stream" else ((srv if arg.get("req") is not None else []) + deliv if kind == "unary" else []),
                         "trace": trace,
                         "server": srv,
                         "table": read_table(seg) if seg is not None else [],
